@@ -22,6 +22,8 @@ cut out of the AST of the tree under test and write to a scratch file:
   bn_c                    which value compress stores under BN_CFAC, BN_NPX1, BN_NPX2, BN_RPX1, BN_RPX2 (int mode)
   out_shape               the two upper bounds of expand's `np.mgrid[0:..., 0:...]` (rows, columns of the result)
   bn_deleted              bit mask of the BN_* keys expand deletes (1 CFAC, 2 NPX1, 4 NPX2, 8 RPX1, 16 RPX2)
+  load_dispatch           load_file_or_hdu as a table: input kind (0 HDUList, 1 str, 2 pathlib.Path / os.PathLike) ->
+                          0 used as is, 1 opened with fits.open, 2 wrapped in a new HDUList   (round 8)
 
 A branch that does anything else than one update of the keyword it tested, a second assignment to a CRPIX card, a call
 that is handed `header`, an mgrid that does not start at 0 ... is written as a call the translator rejects: the piece
@@ -213,6 +215,77 @@ def _deleted_slice(fn):
     return f"def bn_deleted(dummy):\n    mask = {mask} + 0 * dummy\n    return mask\n"
 
 
+_KIND_OF_CLASS = {          # which of the three input kinds (0 HDUList, 1 str, 2 pathlib.Path / other os.PathLike) a class admits
+    'fits.HDUList': {0}, 'HDUList': {0}, 'str': {1},
+    'os.PathLike': {2}, 'PathLike': {2}, 'pathlib.Path': {2}, 'Path': {2}, 'pathlib.PurePath': {2},
+    'bytes': set(), 'fits.PrimaryHDU': set(), 'fits.ImageHDU': set(), 'PrimaryHDU': set(), 'ImageHDU': set(),
+}
+
+
+def _load_dispatch_slice(fn):
+    """load_file_or_hdu as a table: input kind (0 an HDUList, 1 a str file name, 2 a pathlib.Path or another
+    os.PathLike) -> action (0 used as it is, 1 opened with fits.open, 2 wrapped in a new HDUList, 9 = nothing assigned).
+    Only `if isinstance(filename, <classes>) … elif … else …` chains whose branches are a single assignment to the
+    returned name are read; anything else is UNTRANSLATABLE."""
+    head = "def load_dispatch(kind):\n"
+    bad = lambda why: head + f"    action = untranslatable('{why}')\n    return action\n"   # noqa
+    if fn is None or len(fn.args.args) != 1:
+        return bad('load_file_or_hdu not found')
+    arg = fn.args.args[0].arg
+    body = [s for s in fn.body if not (isinstance(s, ast.Expr) and isinstance(s.value, ast.Constant))]
+    if len(body) != 2 or not isinstance(body[0], ast.If) or not isinstance(body[1], ast.Return) \
+            or not isinstance(body[1].value, ast.Name):
+        return bad('body is not: if-chain; return name')
+    ret = body[1].value.id
+
+    def action(stmts):
+        if len(stmts) != 1 or not isinstance(stmts[0], ast.Assign) or len(stmts[0].targets) != 1 \
+                or ast.unparse(stmts[0].targets[0]) != ret:
+            return None
+        v = stmts[0].value
+        if isinstance(v, ast.Name) and v.id == arg:
+            return 0
+        if isinstance(v, ast.Call) and ast.unparse(v.func) in ('fits.open', 'open') and v.args \
+                and ast.unparse(v.args[0]) == arg:
+            return 1
+        if isinstance(v, ast.Call) and ast.unparse(v.func) in ('fits.HDUList', 'HDUList') and len(v.args) == 1 \
+                and ast.unparse(v.args[0]) == f'[{arg}]':
+            return 2
+        return None
+
+    def kinds(test):
+        if not (isinstance(test, ast.Call) and ast.unparse(test.func) == 'isinstance' and len(test.args) == 2
+                and ast.unparse(test.args[0]) == arg):
+            return None
+        cls = test.args[1].elts if isinstance(test.args[1], ast.Tuple) else [test.args[1]]
+        out = set()
+        for c in cls:
+            k = _KIND_OF_CLASS.get(ast.unparse(c))
+            if k is None:
+                return None
+            out |= k
+        return out
+
+    lines, s, first = [head + "    action = 9\n"], body[0], True
+    while True:
+        ks, a = kinds(s.test), action(s.body)
+        if ks is None or a is None:
+            return bad('branch not recognised')
+        cond = " or ".join(f"kind == {k}" for k in sorted(ks)) or "kind == 99"
+        lines.append(f"    {'if' if first else 'elif'} {cond}:\n        action = {a}\n")
+        first = False
+        if len(s.orelse) == 1 and isinstance(s.orelse[0], ast.If):
+            s = s.orelse[0]
+            continue
+        if s.orelse:
+            a = action(s.orelse)
+            if a is None:
+                return bad('else branch not recognised')
+            lines.append(f"    else:\n        action = {a}\n")
+        break
+    return "".join(lines) + "    return action\n"
+
+
 def _slices():
     repo = os.environ.get('AEGEAN_REPO', '/repo')
     try:
@@ -221,6 +294,8 @@ def _slices():
         fe = [n for n in ast.walk(tree) if isinstance(n, ast.FunctionDef) and n.name == 'expand'][0]
         text = "\n\n".join([_crpix_slice(fc, 'c'), _crpix_slice(fe, 'e'), _scale_slices(fc, 'c'), _scale_slices(fe, 'e'),
                             _bn_write_slice(fc), _out_shape_slice(fe), _deleted_slice(fe)])
+        fl = [n for n in ast.walk(tree) if isinstance(n, ast.FunctionDef) and n.name == 'load_file_or_hdu']
+        text += "\n\n" + _load_dispatch_slice(fl[0] if fl else None)
     except Exception as exc:   # noqa
         text = f"# slicing failed: {exc!r}\n"
     d = os.path.join(tempfile.gettempdir(), 'verif-C15-slices')
@@ -282,6 +357,10 @@ _NEW += [
          fallback={'outRows': _fbN('outRows', ['npx1', 'npx2'], 'outRowsHand'),
                    'outCols': _fbN('outCols', ['npx1', 'npx2'], 'outColsHand')},
          all_params=['npx1', 'npx2']),
+    dict(file=_S, func='load_dispatch', mode='int', params={'kind': 'N'},
+         outputs=[('action', 'loadAction')],
+         fallback={'loadAction': _fbN('loadAction', ['kind'], 'loadActionHand')},
+         all_params=['kind']),
     dict(file=_S, func='bn_deleted', mode='int', params={'dummy': 'N'},
          outputs=[('mask', 'bnDeleted')],
          fallback={'bnDeleted': _fbN('bnDeleted', ['dummy'], 'bnDeletedHand')},
